@@ -139,6 +139,8 @@ class Ctx:
         own = None
         for f in frames:
             fn = f.split("(")[0]
+            if fn.startswith("verifharness/ws.WithFaults"):
+                continue    # the harness's fault wrapper re-raises a panic it is not looking for: the frames below it are the origin
             if fn.startswith(("runtime.", "runtime/", "panic(", "sync.", "sync/", "bufio.", "io.", "bytes.", "compress/", "encoding/", "strings.", "net.", "net/", "context.", "time.", "internal/", "reflect.", "errors.", "fmt.", "syscall.", "os.", "unicode/", "math/", "sort.", "strconv.")):
                 continue
             own = fn
